@@ -195,3 +195,82 @@ func VerifH10b() {
 	w.checkReads("H10b.after")
 	nd.Reach("H10b.end")
 }
+
+// VerifH10c: the hand-over repeated. Three roots, two of them run out of space mid-write (each
+// at its own write and after its own accepted prefix), the third has room; if the third reports
+// more free space than both failing ones the write must get there - through one or two
+// hand-overs, whatever order the roots are tried in - and store the source bytes exactly.
+func VerifH10c() {
+	nd.SetPreemptionBound(0)
+	concreteCounter = true
+	roots := []string{"r1", "r2", "r3"}
+	cfg := stdConfig(roots...)
+	for _, r := range roots {
+		verifenv.Free[r] = nd.U64("free")
+	}
+	w := newWorld(cfg, []string{"a"})
+	np := 1 + nd.Choice("pieces", 2)
+	var pieces [][]byte
+	var whole []byte
+	for i := 0; i < np; i++ {
+		pc := nd.Bytes("piece", 1+nd.Choice("piece-len", 2))
+		pieces = append(pieces, pc)
+		whole = append(whole, pc...)
+	}
+	good := roots[nd.Choice("root-with-room", 3)]
+	atWrite := map[string]int{}
+	for _, r := range roots {
+		if r != good {
+			atWrite[r] = nd.Choice("failing-write", np)
+		}
+	}
+	seen := map[string]int{}
+	hit := map[string]bool{}
+	verifenv.FS.OnWrite = func(p string, n int) (int, error) {
+		root := path.Dir(path.Dir(p))
+		if root == good || hit[root] {
+			return n, nil
+		}
+		k := seen[root]
+		seen[root] = k + 1
+		if k != atWrite[root] {
+			return n, nil
+		}
+		hit[root] = true
+		return nd.Choice("bytes-accepted", n), syscall.ENOSPC
+	}
+	var err error
+	switch nd.Choice("api", 3) {
+	case 0:
+		err = w.d.SetReader(ctx, "a", &pieceReader{pieces: pieces, failAt: -1})
+	case 1:
+		err = w.d.Set(ctx, "a", whole)
+	default:
+		f, cerr := w.d.Create(ctx, "a")
+		nd.Assert(cerr == nil, "H10c.create")
+		for _, pc := range pieces {
+			if _, werr := f.Write(pc); werr != nil && err == nil {
+				err = werr
+			}
+		}
+		if cerr := f.Close(); err == nil {
+			err = cerr
+		}
+	}
+	verifenv.FS.OnWrite = nil
+	more := true
+	for _, r := range roots {
+		if r != good {
+			more = nd.And(more, verifenv.Free[good] > verifenv.Free[r])
+		}
+	}
+	nd.Assert(nd.Implies(more, err == nil), "H10c.continues-through-two-handovers")
+	if err == nil {
+		w.vs = append(w.vs, rver{key: "a", val: whole, owner: 0, pos: w.tick()})
+		nd.Reach("H10c.success")
+	} else {
+		nd.Reach("H10c.failure")
+	}
+	w.checkReads("H10c.after")
+	nd.Reach("H10c.end")
+}
